@@ -49,10 +49,19 @@ __CPROVER_ensures(res[G] == WNEG(__CPROVER_old(a[G]))) /*@negate_value:C08,C13,C
 __CPROVER_ensures(a == res || a[G] == __CPROVER_old(a[G])) /*@negate_src_unchanged:C18,C08*/
 ;
 
+// enforce runs: -DCOPY_ALIAS=0 (separate buffers, memcpy's no-overlap precondition is checked) and -DCOPY_ALIAS=1
+// (a == res exactly: memcpy(p,p,n), the exact self-overlap the in-place vec_znx_copy relies on, waived by name 4.2)
+#if defined(COPY_ALIAS) && COPY_ALIAS == 0
+#define COPY_REQ_A __CPROVER_is_fresh(a, nn * 8)
+#elif defined(COPY_ALIAS)
+#define COPY_REQ_A (a == res)
+#else
+#define COPY_REQ_A (a == res || __CPROVER_is_fresh(a, nn * 8))
+#endif
 void znx_copy__c(uint64_t nn, int64_t* res, const int64_t* a)
 __CPROVER_requires(nn <= MAXN && G < nn)
 __CPROVER_requires(__CPROVER_is_fresh(res, nn * 8))
-__CPROVER_requires(a == res || __CPROVER_is_fresh(a, nn * 8))
+__CPROVER_requires(COPY_REQ_A)
 __CPROVER_assigns(__CPROVER_object_upto(res, nn * 8))
 __CPROVER_ensures(res[G] == __CPROVER_old(a[G])) /*@copy_value:C08,C13,C15*/
 __CPROVER_ensures(a == res || a[G] == __CPROVER_old(a[G])) /*@copy_src_unchanged:C18,C08*/
